@@ -575,7 +575,8 @@ func mergeArray(dest map[string]interface{}, src reflect.Value) error {
 // Spread (golint)
 func Spread(v reflect.Value) (interface{}, error) {
 
-	var results []interface{}
+	// Not a nil slice (which marshals as null).
+	results := []interface{}{}
 
 	switch {
 	case jtypes.IsMap(v):
